@@ -27,6 +27,9 @@ def jobs(tier):
             # hand-overs: backlog, partial drain, more posts (the sequence number alone orders the queue)
             {"name": "backlog-same-type", "kind": "A", "length": 8 if tier == "quick" else 10, "ops": ["post_s0_d0", "next"],
              "one_type": True},
+            # messages that compare equal (same type, same content): each one is still a message of its own
+            {"name": "messaging-histories-equal", "kind": "A", "length": 4 if tier == "quick" else 5, "equal_content": True,
+             "ops": ["post_s0_d0", "post_s0_d1", "register_d1", "next"], "one_type": True},
             # two computations that both register late and write to each other before being registered
             {"name": "two-late-computations", "kind": "C", "length": 6 if tier == "quick" else 7},
             {"name": "agent-clean-shutdown", "kind": "B", "posts": 3 if tier == "quick" else 4},
@@ -61,6 +64,13 @@ def run(eng, p):
     return run_agent(eng, p)
 
 
+def _tok(Message, idx, p):
+    """Message number idx; with p['equal_content'] all messages compare equal (same type and content), told apart by .idx only."""
+    m = Message("tok", "same" if p.get("equal_content") else idx)
+    m.idx = idx
+    return m
+
+
 def run_messaging(eng, p):
     from pydcop.infrastructure.communication import InProcessCommunicationLayer, Messaging
     from pydcop.infrastructure.discovery import Discovery
@@ -86,7 +96,7 @@ def run_messaging(eng, p):
                 idx = len(posted)
                 entry = (s, d, idx, t)
                 posted.append((entry, shut))
-                m.post_msg(s, d, Message("tok", idx), t)
+                m.post_msg(s, d, _tok(Message, idx, p), t)
                 if not shut:
                     if d == "d1" and not late_registered:
                         waiting.append(entry)
@@ -115,13 +125,13 @@ def run_messaging(eng, p):
                     if full is None:
                         break
                     src, dst, msg, typ = full
-                    match = [e for e in queue if e[2] == msg.content]
+                    match = [e for e in queue if e[2] == msg.idx]
                     if not match or match[0][0] != src or match[0][1] != dst:
                         eng.fail("a message was handed over that is not queued (duplicate or wrong routing)",
-                                 detail=str((hist, src, dst, msg.content)))
+                                 detail=str((hist, src, dst, msg.idx)))
                         return
                     queue.remove(match[0])
-                    delivered.append(msg.content)
+                    delivered.append(msg.idx)
                     _check_pop(eng, match[0], queue, "hand-over order violates priority / per-sender FIFO")
                     if op == "next":
                         break
